@@ -28,6 +28,7 @@ CHECKS = {
         note="TAB/control characters inside sequence lines are not generated (the reader cuts lines there); writers are mine and modelled on tests/data.",
         design="4 C04"),
     "C05": dict(
+        engine="libfuzzer+hypothesis",
         technique="coverage-guided fuzzing (libFuzzer + ASan/UBSan/LSan, structure-aware decode, in-target alignment oracle) + Hypothesis CLI/option fuzzing + valgrind memcheck sampling + enumerated letter mapping",
         text="libFuzzer drives read->run->write in-process with a semantic oracle inside the target; Hypothesis drives the sanitised CLI with generated option strings, malformed/odd files and unreadable/unwritable paths and judges exit status, diagnostics and output validity; a sample runs under valgrind for uninitialised reads; every letter x kind is enumerated for a defined, case-insensitive internal code.",
         note="Bounded input sizes (4 KiB byte level); 'never' is sampled, not proved. Only crash-/leak- artefacts count for the fuzzer.",
@@ -58,6 +59,7 @@ CHECKS = {
         note="Trusted: snapshot taken in the MERGE_END hook on the merging thread; sizes bounded.",
         design="4 C10"),
     "C11": dict(
+        engine="rapidcheck",
         technique="exhaustive enumeration (small alphabets/lengths) + rapidcheck random testing against a Sellers DP reference, AVX2 and non-AVX2 builds",
         text="bpm.c is compiled into the harness twice (with and without AVX2); bpm_block, bpm and bpm_256 are compared with a plain O(nm) semi-global edit-distance reference exhaustively for alphabets of 2-3 symbols and short lengths, and on rapidcheck-generated pairs concentrated on 64-symbol block boundaries and the 1024 cap.",
         note="Reference is the textbook Sellers recurrence; exhaustive part is complete only up to the stated lengths.",
@@ -133,7 +135,7 @@ def main():
             "add_only": True,
         },
         "engines": [
-            {"name": "hypothesis", "path": "vlib/engine.py", "serves_properties": [c["property_id"] for c in checks if c["engine"] == "hypothesis"],
+            {"name": "hypothesis", "path": "vlib/engine.py", "serves_properties": [c["property_id"] for c in checks if "hypothesis" in c["engine"]],
              "kind_free_text": "Hypothesis 6.168 (python3-vt), seeded workers, cases executed in fresh sanitised kalign processes (probe / CLI built from /repo's working tree)"},
             {"name": "rapidcheck", "path": "native/c11_bpm.cpp", "serves_properties": ["C11"], "kind_free_text": "rapidcheck + exhaustive enumerator linked with bpm.c"},
             {"name": "libfuzzer", "path": "native/fuzz_pipeline.cc", "serves_properties": ["C05"], "kind_free_text": "libFuzzer + ASan/UBSan/LSan, structure-aware"},
